@@ -20,6 +20,9 @@ var planShapes = []string{
 	// label handling of matches: filters keep the many-side labels, included labels are merged in
 	"m > on (a) group_left (b) n", "m == on (a) group_left (c, b) n", "n < on (b) group_right (a) m", "m != ignoring (b, c) group_left (c) n",
 	"m >= on (a) group_left (Z) n", "m + on (a) group_left (b, c) n", "m <= bool on (a) group_left (b) n", "m and on (a) n",
+	// @-pinned operands next to unpinned ones, consumed batches-first (aggregations, scalar())
+	"sum(m - m @ start())", "sum(m @ 3700 * scalar(n))", "scalar(m @ end() + on () n)", "count(m @ 3700 > n)", "sum(n * on (a) group_left () m @ 3650)",
+	"max(rate(m[1m] @ end())) + min(m)", "avg(m @ start() offset 30s) * 2", "sum(abs(m @ 3700)) / count(n)",
 }
 
 func drawFaultCase(t *rapid.T) *core.Case {
@@ -103,6 +106,9 @@ func TestC17(t *testing.T) {
 	runProp(t, "C17", func(t *rapid.T) *core.Case {
 		c := drawFaultCase(t)
 		c.Fallback = rapid.IntRange(0, 4).Draw(t, "fallback") == 0
+		if rapid.IntRange(0, 2).Draw(t, "honourctx") == 0 {
+			c.Note = "honourctx"
+		}
 		return c
 	})
 }
@@ -116,6 +122,10 @@ func TestC14(t *testing.T) {
 		}
 		if rapid.IntRange(0, 3).Draw(t, "deadline") == 0 {
 			c.Note = "deadline"
+		}
+		if rapid.IntRange(0, 1).Draw(t, "honourctx") == 0 {
+			// a storage that fails Querier()/Select with the context's error once it is done
+			c.Note += " honourctx"
 		}
 		if rapid.IntRange(0, 3).Draw(t, "delayscript") == 0 && len(c.Series) < 30 {
 			c.Delay = uint64(rapid.IntRange(1, 1<<20).Draw(t, "delay"))
